@@ -491,7 +491,7 @@ func c14(c *Ctx) {
 		}
 		if !blocked && h%4 == 2 {
 			// a burst of stop requests that meet the firing timer
-			for t := 0; t < c.Size(12, 400) && !blocked; t++ {
+			for t := 0; t < c.Size(12, 30) && !blocked; t++ {
 				ch := make(chan struct{})
 				atomic.StoreInt32(&meetFlag, 0)
 				hold := t%2 == 1
